@@ -166,9 +166,9 @@ func runC13(c *Ctx) {
 	if fn := w.methodOfNamed(client, "Forward"); fn != nil && fn.Blocks != nil {
 		ok := false
 		for _, call := range callsIn(fn) {
-			if callee := call.Common().StaticCallee(); callee != nil && callee == clientExchange(w) && w.Expr(call.Common().Args[1]) == "p1" {
+			if callee := call.Common().StaticCallee(); callee != nil && callee == clientExchange(w) && w.ExprIn(fn, call.Common().Args[1]) == "p1" {
 				for _, wc := range callsIn(callee) {
-					if wcallee := wc.Common().StaticCallee(); wcallee != nil && isFramingWrite(w, wcallee) && w.Expr(wc.Common().Args[1]) == "p1" {
+					if wcallee := wc.Common().StaticCallee(); wcallee != nil && isFramingWrite(w, wcallee) && w.ExprIn(callee, wc.Common().Args[1]) == "p1" {
 						ok = true
 					}
 				}
@@ -390,8 +390,8 @@ func runC13(c *Ctx) {
 			if ld, ok := line.(*ssa.UnOp); ok {
 				header = ld.Block()
 			}
-			for l := range f.At(call.Block()) {
-				if header != nil && f.At(header)[l] {
+			for l := range f.Primary(call.Block()) {
+				if header != nil && f.Primary(header)[l] {
 					continue
 				}
 				ex := w.Short(l.V)
